@@ -22,6 +22,10 @@ theorem writes_version_12 : Facts.C19.writesVersion12 = true ∧ Facts.C19.versi
 the translated cut condition / position mean "more than 65 535 bytes" / "at 65 535" for every length. -/
 theorem write_splits : Facts.C19.writeSplits = true ∧ (∀ n : Nat, splitNeeded n = decide (n > 65535))
     ∧ splitAt = 65535 := ⟨by decide, splitNeeded_eq, splitAt_eq⟩
+/-- Tie: the `switch rec.Type` of `FakeTLS.Read`, read from the source as a table and interpreted by the
+model, skips ChangeCipherSpec, delivers application data, and fails on a handshake record. -/
+theorem read_switch : actionOf tCCS = .skip ∧ actionOf tApp = .deliver ∧ actionOf tHandshake = .errHandshake :=
+  ⟨act_CCS, act_App, act_Hs⟩
 theorem client_random_at_11 : Facts.C19.clientRandomOffset = 11 ∧ Facts.C19.clientRandomLength = 32 := by decide
 
 theorem writeAll_eq (ws : List Bytes) : writeAll ws = writeAllWith writeSplit false ws := by
